@@ -699,6 +699,14 @@ def V2(ctx, subset=None):
                     inner = [c_ for c_ in chain if c_ in okops]
                     if inner:
                         excused = True
+            if not excused and k == "rt::notify::Notify::wait":
+                # the spurious-wake-up decision of Notify::wait: the closure that asks the path for the decision reads `notified`
+                # to choose between the two branching calls - wherever that closure lives after helpers were split off / merged
+                for c_ in chain:
+                    f_ = prog.fns.get(c_)
+                    if f_ is not None and f_.kind == "Closure" and enclosing_fn(c_) == k and \
+                            any(prog.callee_key(cc) == "rt::path::Path::branch_spurious" for (_b, _t, cc) in prog.sites(prog.ident(c_))):
+                        excused = True
             if not excused and len(chain) >= 1 and _feeds_only_blocking_condition(prog, ea, root):
                 excused = True
             if not excused:
